@@ -707,8 +707,10 @@ def oracle(case, res):
                 got = (content_of(F1, v1), F1.get_content_type(v1)) if v1 is not None and v1 in F1 else None
                 if got != want:
                     rp = resolve(v, pn)
+                    same = {x for x in stored_refs.get(rp.lower(), ()) if x[0] == rp} if rp is not None else ()
                     coll = rp is not None and len(stored_refs.get(rp.lower(), ())) > 1
-                    sig = ("C08:files:names-equal-up-to-case" if coll else
+                    sig = ("C08:files:same-part-name-different-files" if len(same) > 1 else
+                           "C08:files:names-equal-up-to-case" if coll else
                            "C08:files:not-extracted@" + re.sub(r"\d+", "", pos))
                     fails.append((sig, f"File {i}:{pos} named stored file {v!r}; after reading it names {v1!r} = "
                                        f"{'nothing' if got is None else 'other bytes/content type'} in the receiving container"))
